@@ -21,7 +21,7 @@ def strategy():
     from vlib import gen_config as G
     from hypothesis import strategies as st
     # positional-only parameters are excluded by construction: accepted-then-TypeError is recorded under C01 (D2)
-    return st.one_of(G.config(max_levels=1, free_p=0.04, posonly=False), G.config(max_levels=2, free_p=0.04, posonly=False))
+    return st.one_of(G.config(max_levels=1, free_p=0.04, posonly=False, perturb=False), G.config(max_levels=2, free_p=0.04, posonly=False, perturb=False))
 
 
 def chain_functions(root, limit=20000):
